@@ -18,6 +18,19 @@ from .terms import *
 CHUNK_ALIGN = 16
 
 
+def is_alignment(t):
+    """terms that denote an alignment (a power of two >= 1) by A2/A3 or by construction"""
+    if t == sym('MIN_ALIGN') or (t[0] == 'sym' and str(t[1]).startswith('alignof(')):
+        return True
+    if is_c(t):
+        return t[1] > 0 and (t[1] & (t[1] - 1)) == 0
+    if t[0] == 'app' and t[1] == 'align':
+        return True
+    if t[0] == 'app' and t[1] in ('max', 'min'):
+        return all(is_alignment(x) for x in t[2:])
+    return False
+
+
 def is_pow2_const(t):
     return is_c(t) and t[1] > 0 and (t[1] & (t[1] - 1)) == 0
 
@@ -169,6 +182,8 @@ class Prover:
             return d[1] > 0 and t[1] % d[1] == 0
         if is_c(t) and t[1] == 0:
             return True
+        if is_c(t) and is_alignment(d) and not is_c(d) and t[1] % CHUNK_ALIGN == 0 and self.divides(d, C(CHUNK_ALIGN)):
+            return True     # a multiple of 16 is a multiple of every alignment <= 16
         if ('aligned', t, d) in self.facts or ('aligned', t, d) in self.ax:
             return True
         for f in list(self.facts) + list(self.ax):
@@ -202,10 +217,12 @@ class Prover:
                 return self.aligned(t[2], d, depth + 1) and self.aligned(t[3], d, depth + 1)
             if f == 'npot':
                 # L7: y >= 2^k  =>  2^k | npot(y)
-                if is_c(d) and self.le(d, t[2], depth + 1):
+                if is_alignment(d) and self.le(d, t[2], depth + 1):
                     return True
                 return False
             if f in ('max', 'min'):
+                if is_alignment(t) and is_alignment(d) and self.divides(d, t):
+                    return True     # powers of two: d <= max(..) means d divides it
                 return all(self.aligned(o, d, depth + 1) for o in t[2:])
             if f == 'galloc':
                 L = t[2]
@@ -254,7 +271,27 @@ class Prover:
         for f in self.facts:
             if f[0] == 'eq' and ((f[1] == a and f[2] == b) or (f[1] == b and f[2] == a)):
                 return True
-        return self.le(a, b, depth) and self.le(b, a, depth)
+        if self.le(a, b, depth) and self.le(b, a, depth):
+            return True
+        if depth == 0:
+            ra, rb = self.norm_round(a), self.norm_round(b)
+            if (ra, rb) != (a, b):
+                d, c = self.diff(ra, rb)
+                if not d and c == 0:
+                    return True
+                # one side may be a phi of values: compare per alternative
+                if ra[0] == 'phi' or rb[0] == 'phi':
+                    ph, other = (ra, rb) if ra[0] == 'phi' else (rb, ra)
+                    pf = self.I.phi_facts.get(ph[1][:2], {}) if self.I else {}
+                    ok = True
+                    for p, x in ph[2]:
+                        sub = Prover(self.I, self.facts | set(pf.get(p, ())), self.use_J, self.ax, self.max_depth, self.footer_align, self.level + 1)
+                        if not sub.eq(x, other, 1):
+                            ok = False
+                            break
+                    if ok:
+                        return True
+        return False
 
     def norm(self, t):
         """rewrite wrapping subtraction to subtraction when it provably does not wrap"""
@@ -267,6 +304,24 @@ class Prover:
             return ('app', 'wsub', x, y)
         if t[0] == 'app' and t[1] in ('add', 'sub', 'mul'):
             return app(t[1], *[self.norm(x) for x in t[2:]])
+        return t
+
+    def norm_round(self, t, depth=0):
+        """like norm, and additionally rounding of a provably aligned value is the identity"""
+        if not isinstance(t, tuple) or not t or depth > 12:
+            return t
+        if t[0] == 'app' and t[1] in ('round_down', 'round_up'):
+            x = self.norm_round(t[2], depth + 1)
+            if self.aligned(x, t[3], 1):
+                return x
+            return ('app', t[1], x, t[3])
+        if t[0] == 'app' and t[1] == 'wsub':
+            x, y = self.norm_round(t[2], depth + 1), self.norm_round(t[3], depth + 1)
+            if self.le(y, x, 3):
+                return app('sub', x, y)
+            return ('app', 'wsub', x, y)
+        if t[0] == 'app' and t[1] in ('add', 'sub', 'mul'):
+            return app(t[1], *[self.norm_round(x, depth + 1) for x in t[2:]])
         return t
 
     def diff(self, b, a):
@@ -458,6 +513,8 @@ class Prover:
 
     def upper_bounds(self, k):
         out = []
+        if k == sym('MIN_ALIGN'):
+            out.append(C(CHUNK_ALIGN))      # A3
         if k[0] == 'app':
             f = k[1]
             if f == 'round_down':
@@ -483,6 +540,14 @@ class Prover:
 
     def lower_bounds(self, k):
         out = []
+        if is_alignment(k) and not is_c(k):
+            out.append(C(1))        # A2/A3: alignments are powers of two, hence >= 1
+        if k[0] == 'load' and k[1][0] == 'fld' and k[1][2] == 'ChunkFooter.data' and self.use_J:
+            out.append(C(1))        # NonNull<u8>
+        if k[0] == 'app' and k[1] == 'galloc':
+            for f in self.facts:
+                if f[0] == 'ne' and k in f[1:] and C(0) in f[1:]:
+                    out.append(C(1))
         if k[0] == 'app':
             f = k[1]
             if f == 'round_up':
